@@ -389,10 +389,16 @@ def gen_doc(seed, docid, W, kind):
         # plan the groups: sizes and operation lengths first (the widths depend on them), comments after
         plans = []
         if kind == 'sweep':
-            ks = [1 + (docid + i) % 6 for i in range(8)]
-            for i, k in enumerate(ks):
-                plans.append(dict(k=k, oplens=[rng.choice([6, 8, 10, 13]) for _ in range(k)],
-                                  target=('asm', i % 4) if i < 4 else ('skool', i % 4)))
+            for i in range(8):
+                # asm: any group size; skool: at least 2 instructions (so that sna2skool adds braces) and at least as
+                # many comment lines as instructions (so that the closing brace meets the end of the last line)
+                k = 1 + (docid + i) % 6 if i < 4 else 2 + (docid + i) % 5
+                # sna2skool's closing brace is '}' (1 column) or, after a comment that itself ends with '}', ' }'
+                # (2 columns): last line short by 0 / 1 columns of what the closing needs, in both flavours
+                slots = ([(0, False), (1, False), (1, True), (2, True)] if ((docid - 1) // 161) % 2 == 0
+                         else [(2, False), (3, True), (0, True), (1, False)])
+                plans.append(dict(k=k, oplens=[rng.choice([6, 8, 10, 13]) for _ in range(k)], sweep=True,
+                                  target=('asm', i % 4, False) if i < 4 else ('skool',) + slots[i - 4]))
         else:
             for i in range(rng.randint(1, 6)):
                 k = rng.choice([1, 1, 1, 2, 2, 3, 4, 5, 6])
@@ -402,7 +408,8 @@ def gen_doc(seed, docid, W, kind):
                 oplens = [max(6, min(n, 118)) for n in oplens]
                 t = rng.random()
                 plans.append(dict(k=k, oplens=oplens,
-                                  target=('asm', rng.randrange(4)) if t < 0.25 else ('skool', rng.randrange(4)) if t < 0.5 else None))
+                                  target=('asm', rng.randrange(4), False) if t < 0.25
+                                  else ('skool', rng.randrange(4), rng.random() < 0.4) if t < 0.5 else None))
         # operation texts are needed to know the real widths
         groups = []
         a = addr
@@ -418,29 +425,34 @@ def gen_doc(seed, docid, W, kind):
             lens = None
             tag = 'random'
             braces = True
+            closeend = False
             if p['target']:
-                tool, delta = p['target']
-                nl = rng.choice([1, 2, 2, 3, 4, k, k + 1])
-                if tool == 'asm':
-                    av = asm_avail(conf, ops)
-                    lens = tight_lengths(rng, av, nl, max(1, av - delta))
-                    braces = rng.random() < 0.3
-                else:
-                    av = skool_avail(conf, opw)
-                    # sna2skool glues '{' to the first word of a multi-instruction comment
-                    lens = tight_lengths(rng, av, nl, max(1, av - delta), first_extra=1 if k > 1 else 0)
-                    braces = False
-                if lens:
-                    tag = 'tight-%s-%d' % (tool, delta)
+                tool, delta, closeend = p['target']
+                for attempt in range(4):
+                    nl = rng.choice([1, 2, 2, 3, 4, k, k + 1])
+                    if p.get('sweep') and tool == 'skool':
+                        nl = k + rng.choice([0, 1])
+                    if tool == 'asm':
+                        av = asm_avail(conf, ops)
+                        lens = tight_lengths(rng, av, nl, max(1, av - delta))
+                        braces = rng.random() < 0.3
+                    else:
+                        av = skool_avail(conf, opw)
+                        # sna2skool glues '{' to the first word of a multi-instruction comment
+                        lens = tight_lengths(rng, av, nl, max(1, av - delta), first_extra=1 if k > 1 else 0)
+                        braces = False
+                    if lens:
+                        tag = 'tight-%s-%d' % (tool, delta)
+                        break
             if lens is None:
                 lo = 1 if k > 1 else 0
                 lens = g.rand_lens(lo, rng.choice([3, 8, 20, 40]))
                 if rng.random() < 0.07:
                     lens.insert(rng.randrange(len(lens) + 1), rng.choice([60, 100, W]))
             grp, a = g.group(ordinal, a, k, p['oplens'], lens, braces=braces, tag=tag)
-            if tag.startswith('tight-skool') and rng.random() < 0.4 and grp['words']:
+            if tag.startswith('tight-skool') and closeend and len(grp['words'][-1]) > 1:
                 # the comment ends with '}' -> the closing brace sna2skool adds needs a blank before it
-                grp['words'][-1] = grp['words'][-1][:-1] + '}' if len(grp['words'][-1]) > 3 else grp['words'][-1]
+                grp['words'][-1] = grp['words'][-1][:-1] + '}'
                 grp['variant'] = 'close-last'
             ordinal += k
             if groups and rng.random() < (0.5 if kind == 'random' else 0.3):
@@ -448,7 +460,7 @@ def gen_doc(seed, docid, W, kind):
             groups.append(grp)
         ent['groups'] = groups
         entries.append(ent)
-        addr = a + rng.choice([0, 0, 3, 100])
+        addr = a
     return dict(docid=docid, kind=kind, conf=conf, entries=entries, end=addr, seed=seed)
 
 
@@ -808,9 +820,9 @@ def expected(it, ent, tool):
 # ----------------------------------------------------------------------------------------------
 # projections of what the tools wrote
 # ----------------------------------------------------------------------------------------------
-def line_rec(kind, w=(), n=0, wl=0, cl=0, fl=0, op=0, addr=0, rs=0, warn=0, tab=0, cols=()):
+def line_rec(kind, w=(), n=0, wl=0, cl=0, fl=0, op=0, addr=0, rs=0, warn=0, tab=0, cols=(), lf=0):
     return dict(kind=kind, w=list(w), n=n, wl=wl, cl=cl, fl=fl, op=op, addr=addr, rs=rs, warn=warn, tab=tab,
-                cols=[list(c) for c in cols])
+                cols=[list(c) for c in cols], lf=lf)
 
 
 def opcode(it, text):
@@ -857,7 +869,14 @@ def proj_asm(it, out, err, doc):
     term = '\r\n' if conf['crlf'] else '\n'
     long_lines, table_warn, _ = parse_warnings(err)
     entries = []
-    for ei, chunk in enumerate(chunks_of(out.split(term))):
+    # lines are what the configured terminator delimits; a bare LF inside such a line (CRLF mode) is kept as
+    # an observation (lf=1 on the pieces) and the pieces are judged as lines of their own
+    phys = []
+    for line in out.split(term):
+        pieces = line.split('\n')
+        phys.extend((p, int(len(pieces) > 1)) for p in pieces)
+    bare_lf = set(p for p, f in phys if f)
+    for ei, chunk in enumerate(chunks_of([p for p, f in phys])):
         addr0 = doc['entries'][ei]['addr'] if ei < len(doc['entries']) else -1
         recs = []
         tab = None
@@ -891,7 +910,7 @@ def proj_asm(it, out, err, doc):
                 tab = None
                 toks = text.split()
                 recs.append(line_rec('c', w=it.codes(toks), n=len(line), wl=len(line), cl=len(text), fl=len(toks[0]),
-                                     warn=int((len(line), line) in long_lines)))
+                                     warn=int((len(line), line) in long_lines), lf=int(line in bare_lf)))
             else:
                 tab = None
                 left, sep, right = line.partition(';')
@@ -900,7 +919,8 @@ def proj_asm(it, out, err, doc):
                 toks = text.split()
                 recs.append(line_rec('i', w=it.codes(toks), n=len(line) + 7 * line.count('\t'), wl=len(line),
                                      cl=len(text), fl=len(toks[0]) if toks else 0,
-                                     op=opcode(it, op) if op else 0, warn=int((len(line), line) in long_lines)))
+                                     op=opcode(it, op) if op else 0, warn=int((len(line), line) in long_lines),
+                                     lf=int(line in bare_lf)))
         entries.append(recs)
     return entries
 
@@ -1097,7 +1117,7 @@ def proj_html(it, page):
                     rs = int(com[0].attrs.get('rowspan', '0'))
                 except ValueError:
                     rs = -1
-                words = it.codes(com[0].text().split())
+                words = it.codes(com[0].text().split()[:-1])
             recs.append(line_rec('i', w=words, op=opcode(it, ' '.join(ins[0].text().split())), addr=a, rs=rs))
     return recs
 
